@@ -6,6 +6,8 @@ import (
 	"go/token"
 	"go/types"
 	"log"
+	"regexp"
+	"sort"
 	"strings"
 
 	"github.com/goghcrow/go-ast-matcher"
@@ -195,8 +197,69 @@ func (r *rewriter) rewriteFile(f *loader.File, printer FilePrinter) {
 		// prefer their directives (go:embed, go:noinline, cgo preamble ...) to the attached source of func lits
 		r.comments = nil
 	}
+	all := f.File.Comments
 	f.File.Comments = r.comments
+	if kept := docsAndExampleOutputs(f.File, all, r.comments); kept != nil {
+		f.File.Comments = kept
+	}
 	printer(f.Filename, f)
+}
+
+var exampleOutputPrefix = regexp.MustCompile(`(?i)^[[:space:]]*(unordered )?output:`)
+
+// go test only runs an Example func that has an output comment, a free-floating comment of its body: keep it.
+// With a comment list the printer ignores the doc comments of the nodes, so they have to be in the list as well then.
+// nil when the file has no such comment
+func docsAndExampleOutputs(f *ast.File, all, attached []*ast.CommentGroup) []*ast.CommentGroup {
+	var outputs []*ast.CommentGroup
+	for _, decl := range f.Decls {
+		fn, _ := decl.(*ast.FuncDecl)
+		if fn == nil || fn.Recv != nil || fn.Body == nil || !strings.HasPrefix(fn.Name.Name, "Example") {
+			continue
+		}
+		// the last comment of the body, as go/doc does
+		var last *ast.CommentGroup
+		for _, cg := range all {
+			if fn.Body.Lbrace < cg.Pos() && cg.End() <= fn.Body.Rbrace {
+				last = cg
+			}
+		}
+		if last != nil && exampleOutputPrefix.MatchString(last.Text()) {
+			outputs = append(outputs, last)
+		}
+	}
+	if outputs == nil {
+		return nil
+	}
+	kept := append(outputs, attached...)
+	add := func(docs ...*ast.CommentGroup) {
+		for _, doc := range docs {
+			if doc != nil {
+				kept = append(kept, doc)
+			}
+		}
+	}
+	ast.Inspect(f, func(n ast.Node) bool {
+		switch n := n.(type) {
+		case *ast.File:
+			add(n.Doc)
+		case *ast.FuncDecl:
+			add(n.Doc)
+		case *ast.GenDecl:
+			add(n.Doc)
+		case *ast.ImportSpec:
+			add(n.Doc, n.Comment)
+		case *ast.ValueSpec:
+			add(n.Doc, n.Comment)
+		case *ast.TypeSpec:
+			add(n.Doc, n.Comment)
+		case *ast.Field:
+			add(n.Doc, n.Comment)
+		}
+		return true
+	})
+	sort.SliceStable(kept, func(i, j int) bool { return kept[i].Pos() < kept[j].Pos() })
+	return kept
 }
 
 // Yield / YieldFrom are stubs, a reference surviving the rewriting would drop its values silently,
